@@ -316,6 +316,9 @@ def check_op(spec):
         from mc.checks.c14 import _strip_fn
 
         a, b = _strip_fn(a), _strip_fn(b)
+    if k in EXT_KINDS and k != "Custom":
+        # the description of a definition-backed op is free text chosen by the library (its definition's)
+        a, b = {**a, "description": ""}, {**b, "description": ""}
     if a != b:
         diff = [key for key in set(a) | set(b) if a.get(key) != b.get(key)]
         bad(f"wire-format:{'+'.join(sorted(diff))}", f"encoded as {doc}, wire format says {ref}")
@@ -339,7 +342,7 @@ def check_op(spec):
         else:
             got = {"extension": op2.extension, "name": op2.op_name, "signature": norm(enc_type(op2.signature)),
                    "args": [norm(enc_arg(x)) for x in op2.args], "description": op2.description}
-            exp = {kk: norm(ref[kk]) if kk in ("signature", "args") else ref[kk] for kk in got}
+            exp = {kk: norm(ref[kk]) if kk in ("signature", "args") else (doc[kk] if kk == "description" else ref[kk]) for kk in got}
             for kk in got:
                 if got[kk] != exp[kk]:
                     bad(f"custom-attr:{kk}", f"decoded Custom.{kk} = {got[kk]!r}, expected {exp[kk]!r}")
